@@ -82,6 +82,8 @@ def h17(S, two_connections=None):
     style = ["positional", "keyword", "mixed"][S.pick("style", 3)]
     sub = SUBS[S.pick("subscriber", len(SUBS))]
     second = S.flag("second_connection_alive") if two_connections is None else two_connections
+    # the application may have turned repid's debug logging on (the harness otherwise runs with logging disabled)
+    debug_logging = S.flag("repid_logger_at_debug_level")
     S.tag("operation", op)
     S.tag("subscriber", sub)
     S.tag("second_connection", second)
@@ -137,7 +139,17 @@ def h17(S, two_connections=None):
         res, named = await _perform(conn, op, style, key, params, actor, proc)
         out.update(ref_res=ref_res, res=res, ref_state=ref_state, state=_state(conn), named=named)
 
-    run_async(main, clock=PinnedClock(T0))
+    import logging
+    lg = logging.getLogger("repid")
+    saved = (logging.root.manager.disable, lg.level)
+    if debug_logging:
+        logging.disable(logging.NOTSET)
+        lg.setLevel(logging.DEBUG)
+    try:
+        run_async(main, clock=PinnedClock(T0))
+    finally:
+        logging.disable(saved[0])
+        lg.setLevel(saved[1])
     res, ref_res = out["res"], out["ref_res"]
 
     def norm(r):
@@ -178,7 +190,7 @@ def h17_nested(S):
     from repid.data._key import RoutingKey
     import repid.data._parameters as P
 
-    which = S.pick("scenario", 6)
+    which = S.pick("scenario", 7)
     log = []
     S.tag("scenario", which)
 
@@ -210,6 +222,28 @@ def h17_nested(S):
                 await c.message_broker.queue_declare("default")
                 await c.message_broker.enqueue(RoutingKey(topic="job", queue="default", id_=n), "p", None)
             log.extend(hears)
+            return
+        elif which == 6:
+            # the same broker objects wrapped by a second Connection later on (e.g. re-created with other settings):
+            # operations through the new connection are heard by the new connection's subscribers, not by the old one's
+            from repid import InMemoryMessageBroker
+            mb, bb = InMemoryMessageBroker(), InMemoryBucketBroker()
+            old_log, new_log = [], []
+            for tgt in (old_log, new_log):
+                c = Connection(mb, bb)
+
+                async def before_enqueue(key, tgt=tgt):
+                    tgt.append(("before_enqueue", key.id_))
+
+                async def before_store_bucket(id_, tgt=tgt):
+                    tgt.append(("before_store_bucket", id_))
+
+                c.middleware.add_subscriber(before_enqueue)
+                c.middleware.add_subscriber(before_store_bucket)
+            await c.message_broker.queue_declare("default")
+            await Job("job", args={"x": 1}, id_="j1", _connection=c).enqueue()
+            log.append(("old", [n for n, _ in old_log]))
+            log.append(("new", [n for n, _ in new_log]))
             return
         elif 2 <= which <= 3:
             from repid import InMemoryMessageBroker
@@ -267,6 +301,9 @@ def h17_nested(S):
         S.check("nested-operations-emit-nothing", log == ["before_requeue", "after_requeue"], info=str(log))
     elif which == 4:
         S.check("consumer-side-dead-lettering-is-signalled", [x for x in log if "nack" in x] == ["before_nack", "after_nack"], info=str(log))
+    elif which == 6:
+        S.check("signals-go-to-the-connection-the-operation-went-through",
+                log == [("old", []), ("new", ["before_store_bucket", "before_enqueue"])], info=str(log))
     elif which == 5:
         S.check("shared-middleware-hears-both-connections", log == [("before_enqueue", "one"), ("before_enqueue", "two")], info=str(log))
     elif which == 2:
@@ -285,7 +322,7 @@ HARNESSES = [
                     "connections": "one, or a second connection with its own processor alive in the process"},
             functions=["middlewares/wrapper.py:_middleware_wrapper.__call__", "middlewares/middleware.py:Middleware.emit_signal", "connections/abc.py:_WrappedABC.__new__"],
             covers=["performed", "arguments-checked"]),
-    Harness(name="H17-nested", scenario=h17_nested, bounds={"scenarios": "RabbitMQ requeue (ack + publish inside), Job.enqueue with an args bucket, a failed operation followed by another one in the same task, a cancelled consume followed by another operation, a Redis consumer dead-lettering an expired message, one middleware object shared by two connections"},
+    Harness(name="H17-nested", scenario=h17_nested, bounds={"scenarios": "RabbitMQ requeue (ack + publish inside), Job.enqueue with an args bucket, a failed operation followed by another one in the same task, a cancelled consume followed by another operation, a Redis consumer dead-lettering an expired message, one middleware object shared by two connections, the same broker objects wrapped by a second Connection"},
             covers=["nested"], stubs=["fake AMQP channel"]),
 ]
 ASSUMPTIONS = ["differential oracle: the same operation on an identically prepared connection without subscribers", "selectors are discrete (enumeration)"]
